@@ -145,23 +145,24 @@ Fixpoint write_at (dirs : path) (fname : string) (c : content) (es : dir) : opti
 (* files with the extension are removed at every depth; every sub-directory is cleaned recursively
    and then removed iff it is empty AFTER its own recursion; a directory whose name carries the
    extension is a directory, not a file to remove *)
+Definition clean_entries_with (clean : node -> node) (ext : string) : dir -> dir :=
+  fix go (l : dir) : dir :=
+    match l with
+    | [] => []
+    | (nm, x) :: r =>
+        match x with
+        | NFile c => if has_ext ext nm then go r else (nm, NFile c) :: go r      (* export.rs:167-171 *)
+        | NDir _ =>
+            match clean x with                                                   (* export.rs:183-193 *)
+            | NDir [] => go r
+            | x' => (nm, x') :: go r
+            end
+        end
+    end.
 Fixpoint clean_node (ext : string) (n : node) : node :=
   match n with
   | NFile c => NFile c
-  | NDir es =>
-      NDir ((fix go (l : list (string * node)) : list (string * node) :=
-               match l with
-               | [] => []
-               | (nm, x) :: r =>
-                   match x with
-                   | NFile c => if has_ext ext nm then go r else (nm, NFile c) :: go r
-                   | NDir _ =>
-                       match clean_node ext x with
-                       | NDir [] => go r
-                       | x' => (nm, x') :: go r
-                       end
-                   end
-               end) es)
+  | NDir es => NDir (clean_entries_with (clean_node ext) ext es)
   end.
 Definition clean_dir (ext : string) (es : dir) : dir :=
   match clean_node ext (NDir es) with NDir es' => es' | NFile _ => es end.
@@ -282,10 +283,11 @@ Fixpoint distinct_paths (l : list path) : bool :=
   | [] => true
   | p :: r => (negb (existsb (fun q => if list_eq_dec string_dec p q then true else false) r) && distinct_paths r)%bool
   end.
-(* distinct sanitised output paths and no model whose output stem is `mod` *)
+(* distinct sanitised output paths and no model whose output file is the module index `mod.rs`
+   (i.e. no model stem `mod` in a SeaORM export) *)
 Definition no_collision (o : orm) (ms : list emodel) : bool :=
   (distinct_paths (map (out_path o) ms)
-   && forallb (fun m => negb (String.eqb (out_stem (em_file m)) "mod")) ms)%bool.
+   && forallb (fun m => negb (String.eqb (out_file o m) "mod.rs")) ms)%bool.
 (* the module path ensure_mod_chain declares is the path build_output_path wrote *)
 Definition chain_names_ok (m : emodel) : bool :=
   if list_eq_dec string_dec (chain_comps m) (em_dirs m ++ [out_stem (em_file m)]) then true else false.
